@@ -64,7 +64,7 @@ def drive(ctx, cases_path, out, extra):
 
 
 def judge(ctx, events, path):
-    res = ctx.validate_trace("Trace_BIP276.tla", "Trace_BIP276.cfg", path, len(events), heap="8g")
+    res = ctx.validate_trace("Trace_BIP276.tla", "Trace_BIP276.cfg", path, len(events), heap="4g")
     for r in res["rejects"]:
         e = events[r["i"] - 1]
         key, what = classify(e, r["why"])
